@@ -461,21 +461,41 @@ class World:
         self.case = case
         self.names = case["names"]
         self.nbk = case["nbk"]
+        # route = spelling of the output path.  "symdir": the files live in run/real_out, the program is given via/<name>
+        # where run/via is a symbolic link to real_out
+        self.route = case.get("route", "plain")
+        self.phys = "real_out/" if self.route == "symdir" else ""
         self.refs = {}            # run number -> bytes of the complete new content
         self.inputs = {}          # relative name -> sha of bystander files
         self.path_of = {}
         for t in ("out", "out2"):
-            p = Path(self.names[t])
+            p = Path(self.phys + self.names[t])
             self.path_of[t] = str(p)
             for i in range(1, self.nbk + 1):
                 self.path_of[("b" if t == "out" else "c") + str(i)] = str(p.with_name("#%s.%d#" % (p.name, i)))
-        self.path_of["tgt"] = str(Path(self.names.get("tgt") or str(Path(self.names["out"]).with_name("linked_earlier_result.dat"))))
+        self.path_of["tgt"] = self.phys + str(Path(self.names.get("tgt") or str(Path(self.names["out"]).with_name("linked_earlier_result.dat"))))
         self.abs_of = {v: k for k, v in self.path_of.items()}
+
+    def given(self, t):
+        """the output path as handed to the program"""
+        name = self.names[t]
+        if self.route == "symdir":
+            return Path("via") / name
+        if self.route == "dots":
+            return Path("./sub/../" + name)
+        if self.route == "abs":
+            return Path(os.path.abspath(self.run / name))
+        return Path(name)
 
     def setup(self):
         shutil.rmtree(self.root, ignore_errors=True)
         self.run.mkdir(parents=True)
         self.tmp.mkdir()
+        if self.route == "symdir":
+            (self.run / "real_out").mkdir()
+            os.symlink("real_out", self.run / "via")
+        if self.route == "dots":
+            (self.run / "sub").mkdir()
         (self.run / OTHER_NAME).write_bytes(OTHER)
         for key, cont in self.case["init"].items():
             if cont == "absent" or key == "other":
@@ -534,6 +554,8 @@ class World:
             try:
                 if p.is_symlink():
                     dest = os.readlink(p)
+                    if self.route == "symdir" and rel == "via" and dest == "real_out":
+                        continue
                     if rel in self.abs_of and dest == Path(self.path_of["tgt"]).name:
                         fs[self.abs_of[rel]] = "link"
                     elif rel in self.abs_of:
@@ -558,6 +580,15 @@ class World:
                 odd.append("file %s removed" % rel)
             elif seen_inputs[rel] != h:
                 odd.append("file %s modified" % rel)
+        # the claims are about the path AS GIVEN: what is read at that spelling must be the entry found in the listing
+        for t in ("out", "out2"):
+            g, ph = self.run / self.given(t), self.run / self.path_of[t]
+            try:
+                same = (os.path.lexists(g) == os.path.lexists(ph)) and (not os.path.exists(g) or os.path.samefile(g, ph))
+            except OSError:
+                same = False
+            if not same:
+                fs[t] = "%s but not what the given path %s leads to" % (fs[t], self.given(t))
         fs["other"] = "oth" if not odd else "changed: " + "; ".join(odd)
         queue = []
         queued = set()
@@ -638,11 +669,11 @@ def run_case(case, root, refs):
     events = []
     try:
         for r, rn in enumerate(case["runs"], 1):
-            out = Path(case["names"][rn["target"]])
+            out = w.given(rn["target"])
             prog, files, kw = inputs(rn["input"], out)
             w.add_inputs(files)
             w.refs[r] = refs[(rn["input"], r)]
-            head = {"run": r, "var": {"prog": prog, "on": sorted(rn["on"])}, "target": rn["target"]}
+            head = {"run": r, "var": {"prog": prog, "on": sorted(rn["on"]), "route": w.route}, "target": rn["target"]}
             if case.get("fresh_queue") and r > 1:
                 # a new process: the singleton starts empty, the temp files of the old process stay on disk
                 DeferredFileWriter().open_files.clear()
